@@ -739,11 +739,15 @@ mod sync {
             pub fn new() -> Self {
                 #[cfg(any(feature="rt_tokio", feature="rt_async-std", feature="rt_smol", feature="rt_nio"))]
                 ::ctrlc::set_handler(|| {
+                    #[cfg(ohkami_verif)] crate::__verif__::point("H0");
                     CATCH.store(true, Ordering::SeqCst);
+                    #[cfg(ohkami_verif)] crate::__verif__::point("H1");
                     let waker = WAKER.swap(null_mut(), Ordering::SeqCst);
+                    #[cfg(ohkami_verif)] crate::__verif__::point("H2");
                     if !waker.is_null() {
                         unsafe {Box::from_raw(waker)}.wake();
                     }
+                    #[cfg(ohkami_verif)] crate::__verif__::point("H3");
                 }).expect("Something went wrong with Ctrl-C");
 
                 #[cfg(any(feature="rt_glommio"))]
@@ -768,12 +772,14 @@ mod sync {
 
                     #[inline]
                     fn poll(self: Pin<&mut Self>, cx: &mut Context<'_>) -> Poll<Self::Output> {
+                        #[cfg(ohkami_verif)] crate::__verif__::point("P0");
                         match unsafe {Pin::new_unchecked(&mut self.get_unchecked_mut().0)}.poll(cx) {
                             Poll::Ready(t) => Poll::Ready(Some(t)),
                             Poll::Pending  => if CATCH.load(Ordering::SeqCst) {
                                 crate::DEBUG!("[CtrlC::catch] Ready");
                                 Poll::Ready(None)
                             } else {
+                                #[cfg(ohkami_verif)] crate::__verif__::point("P2");
                                 #[cfg(any(feature="rt_tokio", feature="rt_async-std", feature="rt_smol", feature="rt_nio"))] {
                                     let prev_waker = WAKER.swap(
                                         Box::into_raw(Box::new(cx.waker().clone())),
@@ -792,6 +798,7 @@ mod sync {
                                         None       => lock.push((current_id, current_waker)),
                                     }
                                 }
+                                #[cfg(ohkami_verif)] crate::__verif__::point("P3");
                                 Poll::Pending
                             }
                         }
